@@ -161,7 +161,47 @@ def chain_cases(chk, count, how1s, how2s):
 			"key2": rng.choice(["id", "cust"]), "key_mode2": rng.choice(["name", "vector"])}, "chain")
 
 
-RUNNERS = {"crossed_and_kept": c09.run_crossed_and_kept, "special_keys": c09.run_special_keys, "label_accessor": c09.run_label_accessor, "repeated_key_column": c09.run_repeated_key_column, "empty_chain": c09.run_empty_chain, "self_join": c09.run_self_join, "derived_right": c09.run_derived_right, "join": run_join, "exhaustive": c09.run_exhaustive, "history": run_history, "relations": run_relations, "unmatched_order": run_unmatched_order, "chain": run_chain}
+def run_fan_in(chk, spec):
+	"""one row of one table matched by hundreds of rows of the other (a fact table against a dimension table), both ways round: every pair is a row,
+	unmatched rows of either side are kept once"""
+	import warnings
+	m, how = spec["matches"], spec["how"]
+	with warnings.catch_warnings():
+		warnings.simplefilter("ignore")
+		big = Table({"k": [1] * m + [5, 1], "bid": list(range(m + 2))})
+		small = Table({"r": [1, 2, None], "sid": ["x", "y", "z"]})
+		if spec["big_side"] == "left":
+			J.check_join(chk, chk.pid, "sampled", how, big, small, ["k"], ["r"], key_mode=spec["key_mode"], expect=spec["expect"], label=f"fan-in-{m}", sig=("fan-in", how, m, "big-left", spec["expect"]))
+		else:
+			J.check_join(chk, chk.pid, "sampled", how, small, big, ["r"], ["k"], key_mode=spec["key_mode"], expect="many_to_many" if spec["expect"] == "many_to_one" else spec["expect"], label=f"fan-out-{m}", sig=("fan-in", how, m, "big-right", spec["expect"]))
+
+
+def run_columnless_operand(chk, spec):
+	"""a table without columns (what a join returns when nothing matched) has no rows: joined - by a detached empty key vector - to a table that has rows,
+	every row of that table is unmatched, so a left join from it and a full join on either side return exactly its rows"""
+	import warnings
+	with warnings.catch_warnings():
+		warnings.simplefilter("ignore")
+		T = Table({"k": [1, 2, 2, None], "v": ["a", "b", "c", "d"]})
+		E = {"Table()": lambda: Table(), "Table(())": lambda: Table(()), "no-match-inner-join": lambda: T.inner_join(Table({"k": [9], "z": [1]}), "k", "k"), "empty-left-join": lambda: T[0:0].join(T, "k", "k", expect="many_to_many")}[spec["empty"]]()
+		if len(E.cols()) != 0:
+			chk.skip("columnless-operand-has-columns")
+			return
+		K = Vector([])
+		form = spec["form"]
+		o = call({"T.join(E)": lambda: T.join(E, "k", K), "T.full_join(E)": lambda: T.full_join(E, "k", K), "E.full_join(T)": lambda: E.full_join(T, K, "k", expect="many_to_many"), "T.join(E) by handle": lambda: T.join(E, T["k"], K)}[form])
+	chk.judged("sampled", ("columnless-operand", spec["empty"], form))
+	if not o.ok:
+		chk.skip("columnless-operand-refused")
+		return
+	r = o.value
+	got = [list(c._underlying) for c in r.cols()] if isinstance(r, Table) else None
+	exp = [[1, 2, 2, None], ["a", "b", "c", "d"]]
+	if got != exp:
+		chk.fail("every row of a table joined to a table without rows comes back once", f"join/rows-lost/columnless-operand/{form}", f"{spec!r}: {form} gave {short(got if got is not None else r, 160)}, expected the rows of T {exp!r}")
+
+
+RUNNERS = {"fan_in": run_fan_in, "columnless_operand": run_columnless_operand, "unique_keys_expect": c09.run_unique_keys_expect, "crossed_and_kept": c09.run_crossed_and_kept, "special_keys": c09.run_special_keys, "label_accessor": c09.run_label_accessor, "repeated_key_column": c09.run_repeated_key_column, "empty_chain": c09.run_empty_chain, "self_join": c09.run_self_join, "derived_right": c09.run_derived_right, "join": run_join, "exhaustive": c09.run_exhaustive, "history": run_history, "relations": run_relations, "unmatched_order": run_unmatched_order, "chain": run_chain}
 RUNNERS["recompute"] = recompute.runner("C10")
 
 
@@ -197,6 +237,15 @@ def run(chk):
 		if rng.random() < 0.3:
 			lk = lk + lk[:2]
 		chk.case("unmatched_order", {"lk": lk, "rk": rk, "how": "full", "key_mode": rng.choice(["name", "vector"])}, "unmatched-order")
+	for how in ("left", "full"):
+		for m in (255, 256, 257, 300) if chk.quick() else (255, 256, 257, 300, 513, 70000):
+			for big_side in ("left", "right"):
+				for expect in ("many_to_many", "many_to_one"):
+					chk.case("fan_in", {"how": how, "matches": m, "big_side": big_side, "expect": expect, "key_mode": "name" if m % 2 else "vector"}, "fan-in")
+	for empty in ("Table()", "Table(())", "no-match-inner-join", "empty-left-join"):
+		for form in ("T.join(E)", "T.full_join(E)", "E.full_join(T)", "T.join(E) by handle"):
+			chk.case("columnless_operand", {"empty": empty, "form": form}, "columnless-operand")
+	c09.unique_keys_cases(chk, ["left", "full"])
 	chain_cases(chk, 150 if chk.quick() else 1000, ["full", "full", "left", "inner"], ["left", "full", "inner"])
 	c09.label_cases(chk, ["left", "full"])
 	c09.special_cases(chk, ["left", "full"], 4 if chk.quick() else 25)
